@@ -445,6 +445,13 @@ func (s *Session) Call(plan, exit []Step) *Result {
 	}
 	done := make(chan out, 1)
 	cpu0 := cpuNow()
+	// the allowance grows with the number of bytes typed: every key costs a dispatch and a
+	// redisplay (a few hundred microseconds; a paste of 3 KiB legitimately takes seconds of CPU
+	// on a loaded machine, a spin takes the whole allowance whatever the input)
+	cpuLimit := CPULimit
+	for _, st := range append(append([]Step{}, plan...), exit...) {
+		cpuLimit += time.Duration(len(st.W)) * 10 * time.Millisecond
+	}
 	go func() {
 		var o out
 		defer func() {
@@ -477,7 +484,7 @@ loop:
 				res.Dump = allStacks()
 				break loop
 			}
-			if cpuNow()-cpu0 > CPULimit {
+			if cpuNow()-cpu0 > cpuLimit {
 				res.CPUSpin = true
 				res.Hung = true
 				res.Dump = allStacks()
